@@ -225,7 +225,7 @@ def verify_function(eng, con, only_scenarios=None):
                 rep.inlined |= set(s2.ghost.get("inlined", ()))
                 rep.havocs |= set(s2.ghost.get("havoc", ()))
                 pname = f"{con.key}/{sc.name}/p{pi}"
-                meta = {"trace": list(s2.trace), "kind": kind}
+                meta = {"trace": list(s2.trace), "kind": kind, "havoc": list(s2.ghost.get("havoc", ()))}
 
                 def add(name, okind, pc, goal):
                     if callable(goal):
